@@ -492,3 +492,21 @@ func (w *World) uncovered() []string {
 	}
 	return out
 }
+
+// hasInlinedHelpers: the function calls package functions without a contract
+// (the engine inlines them), so the inlined-helper numbering can differ.
+func (w *World) hasInlinedHelpers(key string) bool {
+	fn := w.lookupFunc(key)
+	if fn == nil {
+		return false
+	}
+	e := w.newEng(ModeInt)
+	for _, b := range fn.Blocks {
+		for _, in := range b.Instrs {
+			if c, ok := in.(*ssa.Call); ok && e.inlinable(&c.Call) != nil {
+				return true
+			}
+		}
+	}
+	return false
+}
